@@ -5,8 +5,9 @@
    stores the connection and decrements need[c] in ONE critical section, /repo
    commit 753a572); [false] = the acceptConn before that commit, kept as a
    regression record of finding F11 (notes/C19-findings.md). *)
-From Coq Require Import Arith List Bool.
+From Coq Require Import NArith Arith List Bool.
 From Mpc Require Import Proto.Mesh Proto.MeshProof Proto.MeshFixedProof Proto.MeshLive.
+From Mpc Require Proto.MeshWire Proto.MeshWireProof.
 Import ListNotations.
 From Mpc Require Gen.State Base.StateExpected Base.StateCheck Base.StatePkgs.
 
@@ -167,3 +168,72 @@ Theorem C19_state_inventory :
     Mpc.Base.StatePkgs.pkgs_C19 = true.
 Proof. vm_compute. reflexivity. Qed.
 Print Assumptions C19_state_inventory.
+
+(* ---- the wire side of mesh formation (Proto/MeshWire.v: hello format of
+   dial / connectPeerToLeader / acceptConn, dial rule of Join / connectPeer) ---- *)
+
+(* For EVERY number of connections k <= 256, every connection id c < k, every
+   party id and every address (both below 2^32 in value resp. length) and every
+   byte string that follows: acceptConn's parse of the bytes dial writes
+   (magic = connMagic | (c & 0xff), id, address) yields exactly (c, id, address)
+   and leaves exactly the bytes that follow. *)
+Theorem C19_hello_roundtrip : forall k c id addr rest,
+  c < k -> k <= 256 -> (N.of_nat id < 4294967296)%N -> (N.of_nat (length addr) < 4294967296)%N ->
+  MeshWire.dec_hello k (MeshWire.enc_hello c id addr ++ rest) = MeshWire.HOk c id addr rest.
+Proof. exact MeshWireProof.hello_roundtrip. Qed.
+Print Assumptions C19_hello_roundtrip.
+
+(* For EVERY byte string whatsoever: if acceptConn's parse accepts it as
+   (c, id, addr) then c < numConns, the first word has connMagic in its upper 24
+   bits and c is its low byte. *)
+Theorem C19_hello_accept_sound : forall k bs c id addr rest,
+  MeshWire.dec_hello k bs = MeshWire.HOk c id addr rest ->
+  c < k /\ exists magic r1, MeshWire.rd32 bs = Some (magic, r1) /\
+                            N.land magic MeshWire.connMagicMask = MeshWire.connMagic /\
+                            c = N.to_nat (magic mod 256)%N.
+Proof. exact MeshWireProof.hello_accept_sound. Qed.
+Print Assumptions C19_hello_accept_sound.
+
+(* For every first word m whose upper 24 bits are not connMagic (as sent:
+   reduced to 32 bits), every id, address and trailing bytes: never accepted. *)
+Theorem C19_hello_wrong_magic_rejected : forall k m id addr rest c i a r,
+  N.land (m mod 4294967296)%N MeshWire.connMagicMask <> MeshWire.connMagic ->
+  MeshWire.dec_hello k (MeshWire.be32 m ++ MeshWire.be32 id ++ MeshWire.enc_str addr ++ rest)
+  <> MeshWire.HOk c i a r.
+Proof. exact MeshWireProof.hello_wrong_magic_rejected. Qed.
+Print Assumptions C19_hello_wrong_magic_rejected.
+
+(* For every numConns k and every connection id k <= c < 256: the hello dial
+   would write for c is rejected as "invalid connection ID c from peer id". *)
+Theorem C19_hello_bad_connid_rejected : forall k c id addr rest,
+  k <= c -> c < 256 -> (N.of_nat id < 4294967296)%N -> (N.of_nat (length addr) < 4294967296)%N ->
+  MeshWire.dec_hello k (MeshWire.enc_hello c id addr ++ rest) = MeshWire.HBadConnID c id.
+Proof. exact MeshWireProof.hello_bad_connid. Qed.
+Print Assumptions C19_hello_bad_connid_rejected.
+
+(* For EVERY number of parties n, every two different parties i, j < n and every
+   connection id c: exactly one of them dials the other (p2p.Join's dial of the
+   leader = connection 0, connectPeer's loop otherwise); no party dials the same
+   (peer, c) twice. *)
+Theorem C19_dial_exactly_one : forall n i j c, i < n -> j < n -> i <> j ->
+  (In j (MeshWire.all_dials n i c) <-> ~ In i (MeshWire.all_dials n j c)).
+Proof. exact MeshWireProof.dial_exactly_one. Qed.
+Print Assumptions C19_dial_exactly_one.
+
+Theorem C19_dial_nodup : forall n i c, NoDup (MeshWire.all_dials n i c).
+Proof. exact MeshWireProof.all_dials_nodup. Qed.
+Print Assumptions C19_dial_nodup.
+
+(* For every n, every party j < n and every connection id c: the parties that
+   dial j for c are exactly in_dialers n j (1..n-1 for the leader, 1..j-1
+   otherwise), without repetition, and their number is the value need[c] is
+   initialised to (Connect: NumParties - 1; connectPeerToLeader: numAccept). *)
+Theorem C19_in_dialers_spec : forall n j i c, j < n ->
+  (In i (MeshWire.in_dialers n j) <-> i < n /\ In j (MeshWire.all_dials n i c)).
+Proof. exact MeshWireProof.in_dialers_spec. Qed.
+Print Assumptions C19_in_dialers_spec.
+
+Theorem C19_need_counts_inbound : forall n j, j < n ->
+  MeshWire.need_init n j = length (MeshWire.in_dialers n j) /\ NoDup (MeshWire.in_dialers n j).
+Proof. exact MeshWireProof.need_counts_inbound. Qed.
+Print Assumptions C19_need_counts_inbound.
